@@ -236,3 +236,45 @@ func (a *adversary) mkNV(d nvD, block interfaces.Block) *interfaces.ConsensusRaw
 		Message: &protocol.PreprepareContentBuilder{SignedHeader: ppb, Sender: a.sig(d.ppBy, primitives.BlockHeight(d.pp.h), ppb.Build().Raw(), d.ppMode)}}
 	return wrap(&protocol.LeanhelixContentBuilder{Message: protocol.LEANHELIX_CONTENT_MESSAGE_NEW_VIEW_MESSAGE, NewViewMessage: nc}, block)
 }
+
+// ---- non-canonical encodings: membuffers readers ignore bytes after the last field of a nested message, but
+// Raw() of the signed header includes them.  The Byzantine signer signs exactly the padded bytes.
+
+func rawField(b []byte) []byte {
+	out := make([]byte, 4, 4+len(b)+4)
+	out[0], out[1], out[2], out[3] = byte(len(b)), byte(len(b)>>8), byte(len(b)>>16), byte(len(b)>>24)
+	out = append(out, b...)
+	for len(out)%4 != 0 {
+		out = append(out, 0)
+	}
+	return out
+}
+
+func (a *adversary) paddedSigned(signer primitives.MemberId, height uint64, header []byte, pad int) (hdr []byte, sender []byte) {
+	hdr = append(append([]byte{}, header...), make([]byte, pad)...)
+	for i := len(header); i < len(hdr); i++ {
+		hdr[i] = 0xEE
+	}
+	sig := a.cl.ring.sign(signer, height, hdr)
+	sender = (&protocol.SenderSignatureBuilder{MemberId: signer, Signature: sig}).Build().Raw()
+	return
+}
+
+func (a *adversary) mkPaddedP(r refD, signer primitives.MemberId) *interfaces.ConsensusRawMessage {
+	hdr, snd := a.paddedSigned(signer, r.h, r.builder().Build().Raw(), 4)
+	raw := append(rawField(hdr), rawField(snd)...)
+	return wrap(&protocol.LeanhelixContentBuilder{Message: protocol.LEANHELIX_CONTENT_MESSAGE_PREPARE_MESSAGE, PrepareMessage: protocol.PrepareContentBuilderFromRaw(raw)}, nil)
+}
+
+func (a *adversary) mkPaddedC(r refD, signer primitives.MemberId) *interfaces.ConsensusRawMessage {
+	hdr, snd := a.paddedSigned(signer, r.h, r.builder().Build().Raw(), 4)
+	raw := append(append(rawField(hdr), rawField(snd)...), rawField(a.share(signer, primitives.BlockHeight(r.h), ""))...)
+	return wrap(&protocol.LeanhelixContentBuilder{Message: protocol.LEANHELIX_CONTENT_MESSAGE_COMMIT_MESSAGE, CommitMessage: protocol.CommitContentBuilderFromRaw(raw)}, nil)
+}
+
+func (a *adversary) mkPaddedVC(v voteD, block interfaces.Block) *interfaces.ConsensusRawMessage {
+	hd := &protocol.ViewChangeHeaderBuilder{MessageType: v.ht, InstanceId: v.inst, BlockHeight: primitives.BlockHeight(v.h), View: primitives.View(v.v), PreparedProof: a.proofBuilder(v.proof)}
+	hdr, snd := a.paddedSigned(v.sender, v.h, hd.Build().Raw(), 4)
+	raw := append(rawField(hdr), rawField(snd)...)
+	return wrap(&protocol.LeanhelixContentBuilder{Message: protocol.LEANHELIX_CONTENT_MESSAGE_VIEW_CHANGE_MESSAGE, ViewChangeMessage: protocol.ViewChangeMessageContentBuilderFromRaw(raw)}, block)
+}
